@@ -376,7 +376,26 @@ func c20Recover(img image, allowed map[string]bool, hist []string, doubleCrash b
 	}
 	go kv.Start()
 	got := snapshot(kv)
+	// the recovered store must keep working: a further mutation is acknowledged and, after a
+	// clean stop and another reopen, the store shows exactly the recovered state plus it
+	probeErr := kv.Put(ctx, []byte("probe"), []byte("pv"))
+	afterProbe := snapshot(kv)
 	kv.Stop()
+	if allowed[got] {
+		if probeErr != nil {
+			return &c20Viol{"recovered-store-rejects-writes:" + opKind(img.opDesc) + ":inflight=" + inflightName(hist, img.inflight), fmt.Sprintf("%s: store reopened but the next mutation failed: %v", where, probeErr)}
+		}
+		kv3, err := openAOF(img.dir)
+		if err != nil {
+			return &c20Viol{"second-reopen-fails:" + opKind(img.opDesc) + ":inflight=" + inflightName(hist, img.inflight), fmt.Sprintf("%s: after recovery, one more mutation and a clean stop, reopening fails: %v", where, err)}
+		}
+		go kv3.Start()
+		again := snapshot(kv3)
+		kv3.Stop()
+		if again != afterProbe {
+			return &c20Viol{"second-reopen-differs:" + opKind(img.opDesc) + ":inflight=" + inflightName(hist, img.inflight), fmt.Sprintf("%s: recovered {%s}; after one more mutation and a clean stop the store shows {%s} instead of {%s}", where, got, again, afterProbe)}
+		}
+	}
 	if !allowed[got] {
 		var al []string
 		for a := range allowed {
@@ -487,7 +506,7 @@ func c20(c *report.Check) {
 	c.Set("histories", nh)
 	c.Set("crash_images", images)
 	c.Set("distinct_nontrivial", dist.N())
-	c.Set("rule", fmt.Sprintf("every mutation history of length <= %d over %v (+ %d multi-segment histories with 1.1 MB values) driven through the real DiskKV with its writer running and no clean stop; through the patched tidwall/wal copy a crash image of the data directory is taken before every mutating file-system operation (open/create/truncate, write, sync-less close, rename, remove); every image is reopened with the real aof.New and its simple values and prefix children must equal the model state after the acknowledged prefix or after the in-flight mutation (rejected mutations contribute nothing)%s; class = (history length, rejected mutations, kinds of file operations)", depth, c20Alphabet, len(big), map[bool]string{true: "; histories <= 4 additionally crash a second time at every file operation of the recovery", false: ""}[c.Thorough()]))
+	c.Set("rule", fmt.Sprintf("every mutation history of length <= %d over %v (+ %d multi-segment histories with 1.1 MB values) driven through the real DiskKV with its writer running and no clean stop; through the patched tidwall/wal copy a crash image of the data directory is taken before every mutating file-system operation (open/create/truncate, write, sync-less close, rename, remove); every image is reopened with the real aof.New and its simple values and prefix children must equal the model state after the acknowledged prefix or after the in-flight mutation (rejected mutations contribute nothing); the recovered store must then accept a further mutation and show exactly the recovered state plus that mutation after a clean stop and another reopen%s; class = (history length, rejected mutations, kinds of file operations)", depth, c20Alphabet, len(big), map[bool]string{true: "; histories <= 4 additionally crash a second time at every file operation of the recovery", false: ""}[c.Thorough()]))
 	c.Set("samples", dist.Samples)
 	c.Set("exhaustive", true)
 	c.Assume("process-crash semantics: every completed file-system call survives, an interrupted write leaves a prefix; power loss of unsynced data is C22", "tidwall/wal v1.2.1 is exercised through a version-pinned copy whose only change is routing os calls through the hook layer")
